@@ -436,9 +436,10 @@ func c16Global(c *Case) {
 	defer func() { xpath.RegexpCache = saved }()
 	capacity := 1 + g.Intn(3)
 	var loads int64
-	xpath.RegexpCache = xpath.NewLoadingCache(func(key interface{}) (interface{}, error) {
+	// the client's loader customises the semantics (case-insensitive matching) - what the exported variable is for
+	custom := xpath.NewLoadingCache(func(key interface{}) (interface{}, error) {
 		atomic.AddInt64(&loads, 1)
-		return regexp.Compile(key.(string))
+		return regexp.Compile("(?i)" + key.(string))
 	}, capacity)
 	d := valueDoc(c.GShared("doc", int64(c.Index/16)))
 	var pats []string
@@ -462,8 +463,15 @@ func c16Global(c *Case) {
 			return
 		}
 		exprs = append(exprs, ce)
-		asts = append(asts, e)
+		// the expected value under the client's loader: the same call with (?i) in front of the pattern
+		ci := e
+		ci.Args = append([]xref.Expr(nil), e.Args...)
+		ci.Args[1] = xref.Str{V: "(?i)" + p}
+		asts = append(asts, ci)
+		// use the pattern through the DEFAULT cache first: nothing of that may survive the swap
+		opDigestValue(ce, d.Nodes[g.Intn(len(d.Nodes))])
 	}
+	xpath.RegexpCache = custom
 	var wg sync.WaitGroup
 	var viol atomic.Value
 	ng := 1 + g.Intn(6)
